@@ -1102,6 +1102,23 @@ typedef ssize_t (*send_fn)(int, const void *, size_t, int);
 typedef ssize_t (*readv_fn)(int, const struct iovec *, int);
 typedef ssize_t (*writev_fn)(int, const struct iovec *, int);
 
+static sendmsg_fn real_sendmsg;
+static send_fn    real_send;
+static writev_fn  real_writev;
+static readv_fn   real_readv;
+
+// resolve everything that is lazily initialised before threads exist, so the
+// harness itself is race-free under TSan
+__attribute__((constructor)) static void
+vfh_warmup(void)
+{
+	real_sendmsg = (sendmsg_fn) dlsym(RTLD_NEXT, "sendmsg");
+	real_send    = (send_fn) dlsym(RTLD_NEXT, "send");
+	real_writev  = (writev_fn) dlsym(RTLD_NEXT, "writev");
+	real_readv   = (readv_fn) dlsym(RTLD_NEXT, "readv");
+	(void) vf_crc32("", 0);
+}
+
 static bool
 io_send_fault(void)
 {
@@ -1118,9 +1135,9 @@ io_send_fault(void)
 ssize_t
 sendmsg(int fd, const struct msghdr *msg, int flags)
 {
-	static sendmsg_fn real;
+	sendmsg_fn real = real_sendmsg;
 	if (!real) {
-		real = (sendmsg_fn) dlsym(RTLD_NEXT, "sendmsg");
+		real = real_sendmsg = (sendmsg_fn) dlsym(RTLD_NEXT, "sendmsg");
 	}
 	if (atomic_load(&io_smode) == VF_IO_FULL &&
 	    atomic_load(&io_fail_send_at) == 0) {
@@ -1154,9 +1171,9 @@ sendmsg(int fd, const struct msghdr *msg, int flags)
 ssize_t
 send(int fd, const void *buf, size_t len, int flags)
 {
-	static send_fn real;
+	send_fn real = real_send;
 	if (!real) {
-		real = (send_fn) dlsym(RTLD_NEXT, "send");
+		real = real_send = (send_fn) dlsym(RTLD_NEXT, "send");
 	}
 	if (atomic_load(&io_smode) == VF_IO_FULL &&
 	    atomic_load(&io_fail_send_at) == 0) {
@@ -1178,9 +1195,9 @@ send(int fd, const void *buf, size_t len, int flags)
 ssize_t
 writev(int fd, const struct iovec *iov, int cnt)
 {
-	static writev_fn real;
+	writev_fn real = real_writev;
 	if (!real) {
-		real = (writev_fn) dlsym(RTLD_NEXT, "writev");
+		real = real_writev = (writev_fn) dlsym(RTLD_NEXT, "writev");
 	}
 	if (atomic_load(&io_smode) == VF_IO_FULL &&
 	    atomic_load(&io_fail_send_at) == 0) {
@@ -1210,9 +1227,9 @@ writev(int fd, const struct iovec *iov, int cnt)
 ssize_t
 readv(int fd, const struct iovec *iov, int cnt)
 {
-	static readv_fn real;
+	readv_fn real = real_readv;
 	if (!real) {
-		real = (readv_fn) dlsym(RTLD_NEXT, "readv");
+		real = real_readv = (readv_fn) dlsym(RTLD_NEXT, "readv");
 	}
 	if (atomic_load(&io_rmode) == VF_IO_FULL) {
 		return real(fd, iov, cnt);
